@@ -51,6 +51,11 @@ const (
 	AVClosePhase
 	ASnapRewrite
 	AVProposeConf
+	ASAppend
+	ASSnap
+	ASCreateSnap
+	ASCompact
+	ASQuery
 	numActKinds
 )
 
@@ -61,6 +66,7 @@ var actNames = [...]string{
 	"Unreachable", "SnapReport", "Compact", "Crash", "Restart", "Partition", "Heal",
 	"SnapFault", "Stop", "Checkpoint", "HealPhase",
 	"VElect", "VPropose", "VReplicate", "VCommit", "VCompact", "VSendApp", "VHeartbeat", "VSendSnap", "VClosePhase", "SnapRewrite", "VProposeConf",
+	"SAppend", "SSnap", "SCreateSnap", "SCompact", "SQuery",
 }
 
 func (k ActKind) String() string {
@@ -179,6 +185,9 @@ type RunConfig struct {
 	// raft.Node (node.go) with its run loop goroutine under the simulator's
 	// schedule, instead of through the RawNode.
 	NodeAPI bool `json:"node_api,omitempty"`
+	// StoreSim (E4 storesim): no raft node runs; the first node's in-memory
+	// storage is driven directly by writer, application and reader.
+	StoreSim bool `json:"store_sim,omitempty"`
 }
 
 func (rc *RunConfig) node(id uint64) *NodeCfg {
